@@ -111,12 +111,35 @@ Print Assumptions C05_gcm_ct_aad_flip_rejected_partial.
 Theorem C05_gcm_nonce_flip_rejected_partial :
   forall E, (forall x, length (E x) = 16%nat) ->
   forall chk iv iv' aad c tag p,
-  (forall x x', E x = E x' -> x = x') ->
+  (forall x x', blk_ok x -> blk_ok x' -> E x = E x' -> x = x') ->
   length tag = 16%nat -> length iv = 12%nat -> length iv' = 12%nat -> iv <> iv' ->
+  bytes_ok iv = true -> bytes_ok iv' = true ->
   gcm_decrypt E chk iv aad c tag = Ok p ->
   forall p', gcm_decrypt E chk iv' aad c tag <> Ok p'.
 Proof. exact gcm_nonce_change_rejected_partial. Qed.
 Print Assumptions C05_gcm_nonce_flip_rejected_partial.
+
+(* ... and for SM4-GCM the premise is discharged by the SM4 inversion theorem: no premise left *)
+Theorem C05_sm4_gcm_nonce_flip_rejected :
+  forall key iv iv' aad c tag p,
+  length key = 16%nat -> length tag = 16%nat -> length iv = 12%nat -> length iv' = 12%nat -> iv <> iv' ->
+  bytes_ok iv = true -> bytes_ok iv' = true ->
+  sm4_gcm_decrypt key iv aad c tag = Ok p ->
+  forall p', sm4_gcm_decrypt key iv' aad c tag <> Ok p'.
+Proof. exact sm4_gcm_nonce_change_rejected. Qed.
+Print Assumptions C05_sm4_gcm_nonce_flip_rejected.
+
+(* streaming encryption under one chunking, streaming decryption under any other *)
+Theorem C05_gcm_stream_dec_accepts_enc :
+  forall E iv aad taglen chunks1 chunks2 s,
+  (forall x, length (E x) = 16%nat) ->
+  gcm_iv_ok (length iv) && gcm_tag_ok taglen = true ->
+  (N.of_nat (length (concat chunks1)) + 16 <= int_max)%N ->
+  gcm_encrypt_stream E 16 iv aad taglen chunks1 = Ok s ->
+  concat chunks2 = s ->
+  gcm_decrypt_stream E 16 iv aad taglen chunks2 = Ok (concat chunks1).
+Proof. exact gcm_stream_dec_accepts_enc. Qed.
+Print Assumptions C05_gcm_stream_dec_accepts_enc.
 
 (* ---- CCM ---- *)
 Theorem C05_ccm_dec_accepts_enc :
@@ -141,6 +164,45 @@ Theorem C05_ccm_tag_flip_rejected :
   ccm_decrypt E iv aad c tag = Ok p -> ccm_decrypt E iv aad c tag' = Err.
 Proof. exact ccm_tag_change_rejected. Qed.
 Print Assumptions C05_ccm_tag_flip_rejected.
+
+(* CBC-MAC under a block permutation: a change confined to one aligned block changes the MAC *)
+Theorem C05_cbc_mac_one_block_change :
+  forall E, (forall x, length (E x) = 16%nat) -> (forall x, bytes_ok (E x) = true) ->
+  (forall x x', blk_ok x -> blk_ok x' -> E x = E x' -> x = x') ->
+  forall pre b b' post,
+  (length pre mod 16 = 0)%nat -> length b = 16%nat -> length b' = 16%nat -> b <> b' ->
+  bytes_ok pre = true -> bytes_ok b = true -> bytes_ok b' = true -> bytes_ok post = true ->
+  cbc_mac E (pre ++ b ++ post) <> cbc_mac E (pre ++ b' ++ post).
+Proof. exact cbc_mac_one_block_change. Qed.
+Print Assumptions C05_cbc_mac_one_block_change.
+
+(* CCM, 16-byte tag: MAC inputs differing in one aligned block => rejected *)
+Theorem C05_ccm_one_block_change_rejected :
+  forall E, (forall x, length (E x) = 16%nat) -> (forall x, bytes_ok (E x) = true) ->
+  (forall x x', blk_ok x -> blk_ok x' -> E x = E x' -> x = x') ->
+  forall iv aad c aad' c' tag p pre b b' post,
+  length tag = 16%nat ->
+  ccm_decrypt E iv aad c tag = Ok p ->
+  ccm_mac_input iv aad (ccm_ctr E iv c) 16 = pre ++ b ++ post ->
+  ccm_mac_input iv aad' (ccm_ctr E iv c') 16 = pre ++ b' ++ post ->
+  (length pre mod 16 = 0)%nat -> length b = 16%nat -> length b' = 16%nat -> b <> b' ->
+  bytes_ok pre = true -> bytes_ok b = true -> bytes_ok b' = true -> bytes_ok post = true ->
+  forall p', ccm_decrypt E iv aad' c' tag <> Ok p'.
+Proof. exact ccm_one_block_change_rejected. Qed.
+Print Assumptions C05_ccm_one_block_change_rejected.
+
+(* SM4-CCM, 16-byte tag: any change of the ciphertext inside one aligned 16-byte block (in particular
+   every single-bit flip there) is rejected -- no premise: E_K is a permutation by sm4_dec_enc *)
+Theorem C05_sm4_ccm_ct_block_flip_rejected :
+  forall key iv aad cpre cb cb' cpost tag p,
+  length key = 16%nat ->
+  length tag = 16%nat -> (length cpre mod 16 = 0)%nat -> length cb = 16%nat -> length cb' = 16%nat -> cb <> cb' ->
+  bytes_ok iv = true -> bytes_ok aad = true ->
+  bytes_ok cpre = true -> bytes_ok cb = true -> bytes_ok cb' = true -> bytes_ok cpost = true ->
+  sm4_ccm_decrypt key iv aad (cpre ++ cb ++ cpost) tag = Ok p ->
+  forall p', sm4_ccm_decrypt key iv aad (cpre ++ cb' ++ cpost) tag <> Ok p'.
+Proof. exact sm4_ccm_ct_block_change_rejected. Qed.
+Print Assumptions C05_sm4_ccm_ct_block_flip_rejected.
 
 (* ---- SM4-CTR + SM3-HMAC and SM4-CBC + SM3-HMAC, every chunking ---- *)
 Theorem C05_ctr_hmac_accept_iff_tag :
